@@ -627,4 +627,32 @@ Section Facts.
       rewrite Hd in Hv. unfold reindexed_data in Hv. rewrite nth_error_map in Hv.
       destruct (pos_Some _ _ _ Hp) as [Hn _]. rewrite Hn in Hv. simpl in Hv. congruence.
   Qed.
+
+  (* ================= sanity corollaries of reindex_values ================= *)
+  Lemma reindexed_data_same ols (d : list cell) c : NoDup ols -> length d = length ols -> reindexed_data ols d c ols = d.
+  Proof.
+    intros ND HL. unfold reindexed_data. apply nth_ext with (d := c) (d' := c); [rewrite map_length; symmetry; exact HL|].
+    intros n Hn. rewrite map_length in Hn.
+    destruct (nth_error ols n) as [p|] eqn:Ep; [|apply nth_error_None in Ep; lia].
+    set (f := fun p : label => match pos p ols with Some q => nth q d c | None => c end).
+    rewrite (nth_indep (map f ols) c (f p)) by (rewrite map_length; exact Hn).
+    rewrite map_nth. rewrite (nth_error_nth _ _ p Ep). unfold f. rewrite (pos_nodup _ _ _ ND Ep). reflexivity.
+  Qed.
+  (* reindexing to the same periods in the same order changes no value of any variable, whatever the fill arguments *)
+  Theorem reindex_same_labels_identity (st st' : cst) (new_span : span) (new_id : Z) (fv : pyval) (strict : option bool)
+          (fills : list (string * pyval)) (fresh : Z) :
+    wf st ->
+    old_span_ok (c_span st) (span_labels new_span) ->
+    span_labels new_span = span_labels (c_span st) -> NoDup (span_labels (c_span st)) ->
+    reindex_M' st new_span new_id fv strict fills fresh = Ret st' ->
+    map (fun kv => (fst kv, (s_dtype (snd kv), s_data (snd kv)))) (c_vars st')
+    = map (fun kv => (fst kv, (s_dtype (snd kv), s_data (snd kv)))) (c_vars st).
+  Proof.
+    intros Hwf Hok Hsame ND H.
+    destruct (reindex_values st st' new_span new_id fv strict fills fresh Hwf Hok H) as [_ [_ [_ [_ HF]]]].
+    rewrite Hsame in HF. unfold wf in Hwf. revert Hwf.
+    induction HF as [|a b l l' [Ha [Hb [c [_ Hd]]]] HF IH]; intros Hwf; [reflexivity|].
+    inversion Hwf as [|? ? Hlen Hwf']; subst. simpl. rewrite (IH Hwf'). f_equal.
+    rewrite Ha, Hb, Hd. rewrite (reindexed_data_same _ _ c ND Hlen). reflexivity.
+  Qed.
 End Facts.
